@@ -12,6 +12,7 @@ import (
 	"pgregory.net/rapid"
 
 	"verifh/gen"
+	"verifh/ref"
 	"verifh/spec"
 	"verifh/stats"
 )
@@ -303,5 +304,109 @@ func init() {
 		First     int
 	}) error {
 		return sameNameTypes(c.ByPointer, c.First)
+	})
+}
+
+// A self-referential Go type as the destination of a file whose schema is two
+// levels deep (a node and its parent): the pointee is a value of the destination's
+// own type. Read by value and by pointer, by a consumer that closes every bank and
+// by one that keeps them: every record is what the file says, and a record's
+// parent is never the record itself.
+type c05TreeNode struct {
+	ID     int64             `json:"id"`
+	Name   string            `json:"name"`
+	Parent *c05TreeNode      `json:"parent"`
+	Kids   map[string]c05Kid `json:"kids"`
+}
+
+type c05Kid struct {
+	ID   int64        `json:"id"`
+	Back *c05TreeNode `json:"back"`
+}
+
+func recursiveTarget(byPointer, closeBanks bool) error {
+	leaf := ref.Schema{Kind: "record", Name: "Leaf", Fields: []ref.Field{{Name: "id", Type: ref.Prim("long")}, {Name: "name", Type: ref.Prim("string")}}}
+	back := ref.Schema{Kind: "record", Name: "BackNode", Fields: []ref.Field{{Name: "id", Type: ref.Prim("long")}, {Name: "name", Type: ref.Prim("string")}}}
+	kid := ref.Schema{Kind: "record", Name: "Kid", Fields: []ref.Field{{Name: "id", Type: ref.Prim("long")}, {Name: "back", Type: ref.Nullable(back)}}}
+	s := ref.Schema{Kind: "record", Name: "Node", Fields: []ref.Field{
+		{Name: "id", Type: ref.Prim("long")}, {Name: "name", Type: ref.Prim("string")}, {Name: "parent", Type: ref.Nullable(leaf)}, {Name: "kids", Type: ref.Schema{Kind: "map", Values: &kid}}}}
+	const n = 9
+	var blocks []ref.Block
+	for i := 0; i < n; i++ {
+		parent := ref.Union(0, ref.Null())
+		if i%4 != 3 {
+			parent = ref.Union(1, ref.Datum{K: "record", Fields: []ref.Datum{ref.Long(int64(1000 + i)), ref.Str(fmt.Sprintf("parent-of-%d", i))}})
+		}
+		kids := ref.Datum{K: "map"}
+		if i%2 == 0 {
+			kids.Keys = []string{"k"}
+			kids.Vals = []ref.Datum{{K: "record", Fields: []ref.Datum{ref.Long(int64(2000 + i)), ref.Union(1, ref.Datum{K: "record", Fields: []ref.Datum{ref.Long(int64(3000 + i)), ref.Str("back")}})}}}
+		}
+		body, err := ref.Encode(s, ref.Datum{K: "record", Fields: []ref.Datum{ref.Long(int64(i)), ref.Str(fmt.Sprintf("node-%d", i)), parent, kids}}, nil)
+		if err != nil {
+			return fmt.Errorf("VERIF-INCONCLUSIVE %v", err)
+		}
+		blocks = append(blocks, ref.Block{Count: 1, Payload: body})
+	}
+	fs := ref.FileSpec{Schema: []byte(ref.Render(s, nil)), Codec: "null", Blocks: blocks}
+	file, _, err := ref.WriteFile(fs)
+	if err != nil {
+		return fmt.Errorf("VERIF-INCONCLUSIVE %v", err)
+	}
+	var out interface{} = c05TreeNode{}
+	if byPointer {
+		out = &c05TreeNode{}
+	}
+	i := 0
+	err = avro.ReadFile(bytes.NewReader(file), out, func(p unsafe.Pointer, rb *avro.ResourceBank) error {
+		r := (*c05TreeNode)(p)
+		wantParent := i%4 != 3
+		switch {
+		case r.ID != int64(i) || r.Name != fmt.Sprintf("node-%d", i):
+			return fmt.Errorf("record %d delivered as {%d %q}", i, r.ID, r.Name)
+		case wantParent && (r.Parent == nil || r.Parent == r || r.Parent.ID != int64(1000+i) || r.Parent.Name != fmt.Sprintf("parent-of-%d", i) || r.Parent.Parent != nil):
+			return fmt.Errorf("record %d: parent delivered as %+v (the record itself: %v)", i, r.Parent, r.Parent == r)
+		case !wantParent && r.Parent != nil:
+			return fmt.Errorf("record %d: null parent delivered as %+v", i, r.Parent)
+		case i%2 == 0 && (len(r.Kids) != 1 || r.Kids["k"].ID != int64(2000+i) || r.Kids["k"].Back == nil || r.Kids["k"].Back == r || r.Kids["k"].Back.ID != int64(3000+i)):
+			return fmt.Errorf("record %d: kids delivered as %+v", i, r.Kids)
+		case i%2 == 1 && len(r.Kids) != 0:
+			return fmt.Errorf("record %d: empty map delivered as %+v", i, r.Kids)
+		}
+		i++
+		if closeBanks {
+			rb.Close()
+		}
+		return nil
+	})
+	if err != nil {
+		return err
+	}
+	if i != n {
+		return fmt.Errorf("%d records delivered, %d in the file", i, n)
+	}
+	return nil
+}
+
+func TestC05Recursive(t *testing.T) {
+	col := stats.New("C05")
+	defer col.Flush()
+	for round := 0; round < 3; round++ {
+		for _, byPointer := range []bool{false, true} {
+			for _, closeBanks := range []bool{true, false} {
+				c := struct{ ByPointer, CloseBanks bool }{byPointer, closeBanks}
+				err := protect(func() error { return recursiveTarget(byPointer, closeBanks) })
+				col.Record(c, true, "self_referential_destination")
+				if err != nil {
+					failCase(t, "C05", "c05recursive", c, err)
+				}
+			}
+		}
+	}
+}
+
+func init() {
+	registerReplay("c05recursive", func(c struct{ ByPointer, CloseBanks bool }) error {
+		return recursiveTarget(c.ByPointer, c.CloseBanks)
 	})
 }
